@@ -48,7 +48,11 @@ def main():
                 units = len(args[0]) if args and isinstance(args[0], list) else 1
                 try:
                     value = func(*args, **kwds)
-                    res = (True, pickle.dumps(value), units)
+                    try:
+                        res = (True, pickle.dumps(value), units)
+                    except Exception as e:  # noqa
+                        from multiprocessing.pool import MaybeEncodingError
+                        raise MaybeEncodingError(e, value)
                 except Exception as e:  # noqa
                     try:
                         res = (False, pickle.dumps(e), units)
